@@ -269,6 +269,7 @@ func TestC20(t *testing.T) {
 
 	c20RealSack(t, rep, orc, rng)
 	c20E2e(t, rep, orc)
+	c20E2eReal(t, rep)
 
 	type cell struct {
 		method         string
